@@ -294,6 +294,20 @@ class Facts:
         self.adts = {a["path"]: a for a in self.items["adts"]}
         self.impls = self.items["impls"]
 
+    def private_helper(self, path, prefix="", keep=None):
+        """body of `path` when it is a private (non-pub), non-const function under `prefix` that rules may expand at its call sites
+        (an extracted helper), else None. `keep` is a regex of paths that must stay opaque."""
+        b = self.bodies.get(path) if path else None
+        if b is None or not b.hir or not path.startswith(prefix):
+            return None
+        if b.d.get("def_kind") not in ("Fn", "AssocFn") or b.d.get("constness"):
+            return None
+        if not str(b.d.get("vis", "")).startswith("Restricted"):
+            return None
+        if keep is not None and re.fullmatch(keep, path):
+            return None
+        return b
+
     # -- lookup ------------------------------------------------------------
     def body(self, path):
         b = self.bodies.get(path)
